@@ -782,6 +782,15 @@ impl SrtlaConnection {
         self.silence_pulls
     }
 
+    /// Refresh the per-link liveness timeout from the runtime configuration.
+    /// Selection does this on every pass; housekeeping calls it as well so the
+    /// configured value applies before the first routed packet and while the
+    /// stream is paused.
+    #[inline]
+    pub fn set_conn_timeout_ms(&mut self, ms: u64) {
+        self.conn_timeout_ms = ms;
+    }
+
     /// Whether this link has gone silent past its liveness timeout
     /// (`conn_timeout_ms`, default `CONN_TIMEOUT`; runtime-tunable so the
     /// window can scale with the receiver's latency budget).
